@@ -3,7 +3,7 @@ import re
 
 import numpy as np
 
-from . import yrun
+from . import cards, yrun
 
 EXPLICIT = (ValueError, NotImplementedError)
 
@@ -28,6 +28,26 @@ def pop_failed():
 def _cellsum(cell, obs_map):
     c = {k: v for k, v in cell.items() if k not in ("slice", "xlab")}
     return f"{c} observables {sorted(obs_map)[:4]}"
+
+
+def known_nonfinite(cell, key):
+    """the open known finding C16-N3LO-heavy-grid-NaN: O(a_s^3) tensors of massive NC/EM runs (the shipped N3LO grids contain NaN)."""
+    fns = cards.SCHEMES.get(cell.get("scheme", "ZM-VFNS"), (cell.get("scheme"), 0))[0]
+    dis_order = cell.get("ptodis", cell.get("theory", {}).get("PTODIS")) or cell.get("pto", 0)
+    return key[0] == 3 and dis_order == 3 and cell.get("process", "EM") in ("EM", "NC") and fns != "ZM-VFNS"
+
+
+def note_nonfinite(cell, out, names=None):
+    """non-finite entries in a result a check is about to use: recorded (-> violation of the running check) unless they are the open known finding."""
+    for name in names or [n for n in out.keys() if isinstance(out.get(n), list)]:
+        for res in out[name] or []:
+            orders = getattr(res, "orders", None)
+            if not orders:
+                continue
+            for key, (v, e) in orders.items():
+                if not (np.all(np.isfinite(v)) and np.all(np.isfinite(e))) and not known_nonfinite(cell, tuple(key)):
+                    FAILED.append({"exc": "non-finite", "site": f"order {tuple(key)}", "inner": name, "excmsg": f"{name} at x={res.x} Q2={res.Q2}: non-finite entries in order {tuple(key)}", "why": "non-finite result", "cell": _cellsum(cell, {name: None})})
+                    return
 
 
 def note_failure(e, cell, obs_names):
@@ -56,7 +76,9 @@ def try_run(cell, obs_map):
     'explicit' exception type produced by an internal lookup, and any other exception except the open known finding are recorded in FAILED.
     """
     try:
-        return yrun.run(cell, obs_map), "ok"
+        out = yrun.run(cell, obs_map)
+        note_nonfinite(cell, out, list(obs_map))
+        return out, "ok"
     except EXPLICIT as e:
         info = yrun.classify_exception(e)
         if not yrun.raised_explicitly(e):
